@@ -281,21 +281,35 @@ func init() {
 
 	// ---- encoding/binary ----
 	s["encoding/binary.Uvarint"] = func(ex *Exec, fr *Frame, st *State, c *callCtx) Val {
+		// exact for encodings of up to three bytes (every uint16 switch label, every length prefix below 2^21);
+		// longer ones: only the range of n and "n is none of 1, 2, 3"
 		b := c.args[0]
 		val := ex.fresh("uvarint", bv64)
 		n := ex.fresh("uvn", bv64)
+		l := b.L[2]
 		b0 := ex.byteAt(st, b, bvLit(0, 64))
+		b1 := ex.byteAt(st, b, bvLit(1, 64))
+		b2 := ex.byteAt(st, b, bvLit(2, 64))
+		ze := func(x string) string { return "((_ zero_extend 56) " + x + ")" }
+		low := func(x string) string { return ze(app("bvand", x, "#x7f")) }
+		has := func(k uint64) string { return app("bvsge", l, bvLit(k, 64)) }
+		c0 := app("bvuge", b0, "#x80")
+		c1 := app("bvuge", b1, "#x80")
+		c2 := app("bvuge", b2, "#x80")
+		is1 := and(has(1), not(c0))
+		is2 := and(has(2), c0, not(c1))
+		is3 := and(has(3), c0, c1, not(c2))
+		short := or(not(has(1)), and(eq(l, bvLit(1, 64)), c0), and(eq(l, bvLit(2, 64)), c0, c1))
 		ex.assume(st.pc, and(app("bvsle", n, bvLit(10, 64)), app("bvsge", n, "#xfffffffffffffff5"),
-			app("bvsle", n, b.L[2]),
-			implies(eq(b.L[2], bvLit(0, 64)), eq(n, bvLit(0, 64))),
-			// a single byte below 0x80 decodes to itself
-			implies(and(app("bvsgt", b.L[2], bvLit(0, 64)), app("bvult", b0, "#x80")), and(eq(n, bvLit(1, 64)), eq(val, "((_ zero_extend 56) "+b0+")"))),
-			implies(and(app("bvsgt", b.L[2], bvLit(0, 64)), app("bvuge", b0, "#x80")), not(eq(n, bvLit(1, 64)))),
-			implies(app("bvsle", n, bvLit(0, 64)), eq(val, bvLit(0, 64))),
-			// two-byte encodings
-			implies(eq(n, bvLit(2, 64)), eq(val, app("bvor", "((_ zero_extend 56) "+app("bvand", b0, "#x7f")+")",
-				app("bvshl", "((_ zero_extend 56) "+ex.byteAt(st, b, bvLit(1, 64))+")", bvLit(7, 64))))),
-			implies(eq(n, bvLit(2, 64)), app("bvult", ex.byteAt(st, b, bvLit(1, 64)), "#x80"))))
+			app("bvsle", n, l),
+			eq(is1, eq(n, bvLit(1, 64))),
+			eq(is2, eq(n, bvLit(2, 64))),
+			eq(is3, eq(n, bvLit(3, 64))),
+			implies(short, eq(n, bvLit(0, 64))),
+			implies(is1, eq(val, ze(b0))),
+			implies(is2, eq(val, app("bvor", low(b0), app("bvshl", ze(b1), bvLit(7, 64))))),
+			implies(is3, eq(val, app("bvor", low(b0), app("bvshl", low(b1), bvLit(7, 64)), app("bvshl", ze(b2), bvLit(14, 64))))),
+			implies(app("bvsle", n, bvLit(0, 64)), eq(val, bvLit(0, 64)))))
 		return tup(Val{T: types.Typ[types.Uint64], L: []string{val}}, intVal(n))
 	}
 	s["encoding/binary.PutUvarint"] = func(ex *Exec, fr *Frame, st *State, c *callCtx) Val {
@@ -310,8 +324,11 @@ func init() {
 			rel := app("bvsub", i, b.L[1])
 			inside := and(app("bvule", b.L[1], i), app("bvult", rel, n))
 			// byte k = (x >> 7k) & 0x7f | (k < n-1 ? 0x80 : 0)
-			sh := app("bvlshr", x, app("bvmul", rel, bvLit(7, 64)))
-			low := "((_ extract 7 0) " + app("bvand", sh, bvLit(0x7f, 64)) + ")"
+			// seven value bits per byte, by position (constant extracts: no variable shift, no multiplication)
+			low := "(concat #b0000000 ((_ extract 63 63) " + x + "))"
+			for k := 8; k >= 0; k-- {
+				low = ite(eq(rel, bvLit(uint64(k), 64)), fmt.Sprintf("(concat #b0 ((_ extract %d %d) %s))", 7*k+6, 7*k, x), low)
+			}
 			cont := ite(app("bvult", rel, app("bvsub", n, bvLit(1, 64))), "#x80", "#x00")
 			return ite(inside, app("bvor", low, cont), sel(d, i))
 		}
